@@ -843,7 +843,8 @@ def parse_tree_to_objgraph(
 
         # enter recursive visit of attributes only, if the class of the
         # object being processed is a meta class of the current meta model
-        if model_obj.__class__.__name__ in metamodel:
+        # Classes of imported grammars are found by their qualified name.
+        if getattr(model_obj, "_tx_fqn", model_obj.__class__.__name__) in metamodel:
             if hasattr(model_obj, "_tx_fqn"):
                 current_metaclass_of_obj = metamodel[model_obj._tx_fqn]
             else:
